@@ -410,11 +410,12 @@ def c20_program(args):
             res["harness"].append("dumpkeys failed")
             return finish(res, base)
         keys = json.load(open(os.path.join(keydir, "keys.json")))
-        nkeys = rnd.randrange(1, 4)
-        keys = rnd.sample(keys, nkeys)
+        focus = c20_focus(pi)
+        nkeys = focus["nkeys"] if focus else rnd.randrange(1, 5)
+        keys = rnd.sample(keys, min(nkeys, len(keys)))
         work = os.path.join(base, "work")
         os.makedirs(work)
-        use_tmpfs = rnd.random() < 0.35
+        use_tmpfs = rnd.random() < 0.35 and not focus
         if use_tmpfs:
             r = sh(["mount", "-t", "tmpfs", "-o", "size=64k", "tmpfs", work])
             if r.returncode == 0:
@@ -424,27 +425,38 @@ def c20_program(args):
         path = os.path.join(work, "root.json")
         model = None  # dict: version, keys{id:key}, roles{role:{keyids,threshold}}, expires or None, consistent
         program = []
-        length = rnd.randrange(3, 13)
-        # a sensible skeleton first, then random commands
+        # a sensible skeleton first (possibly cut short), then random commands; a content-changing
+        # command is often preceded by a `sign` so that there are signatures it has to remove
         plan = ["init"]
-        for k in keys:
+        skeleton_keys = keys[:focus["skeleton_keys"]] if focus else keys
+        for k in skeleton_keys:
             plan.append(("add-key", k))
         plan.append("thresholds")
-        plan.append("sign")
-        while len(plan) < length:
-            plan.append(rnd.choice(["add-key", "remove-key", "set-threshold", "set-version", "bump-version", "expire", "sign", "sign", "sign-missing-key", "init"]))
-        signed_by = set()
-        for step in plan[:length]:
+        plan.append({"op": "sign", "keys": list(range(len(skeleton_keys)))})
+        if focus:
+            plan += focus["steps"]
+        else:
+            if rnd.random() < 0.15:
+                plan = plan[:rnd.randrange(1, len(plan))]
+            for _ in range(rnd.randrange(2, 10)):
+                nxt = rnd.choice(["add-key", "add-key", "remove-key", "set-threshold", "set-threshold", "set-version", "bump-version", "expire", "sign", "sign", "sign-missing-key", "init"])
+                if nxt not in ("sign", "sign-missing-key", "init") and rnd.random() < 0.5:
+                    plan.append("sign")
+                plan.append(nxt)
+        for step in plan:
             cmd = None
             expect = None  # function(model) -> new model, or None when the command must fail
+            par = step if isinstance(step, dict) else {}
+            if isinstance(step, dict):
+                step = par["op"]
             if step == "init":
                 ver = rnd.choice([None, 1, 7, 2 ** 32])
                 cmd = ["root", "init", path] + (["--version", str(ver)] if ver else [])
                 def expect(m, ver=ver):
                     return {"version": ver or 1, "keys": {}, "roles": {r: {"keyids": [], "threshold": 1507} for r in ROLES}, "expires": None, "consistent": True}
             elif isinstance(step, tuple) or step == "add-key":
-                k = step[1] if isinstance(step, tuple) else rnd.choice(keys)
-                roles = ROLES if isinstance(step, tuple) else rnd.sample(ROLES, rnd.randrange(1, 4))
+                k = step[1] if isinstance(step, tuple) else (keys[par["key"] % len(keys)] if "key" in par else rnd.choice(keys))
+                roles = ROLES if isinstance(step, tuple) else par.get("roles") or rnd.sample(ROLES, rnd.randrange(1, 4))
                 cmd = ["root", "add-key", path, "-k", os.path.join(keydir, k["file"])] + sum([["-r", r] for r in roles], [])
                 def expect(m, k=k, roles=roles):
                     m = json.loads(json.dumps(m))
@@ -459,8 +471,8 @@ def c20_program(args):
                     program.append((["root", "set-threshold", path, r, "1"], (lambda m, r=r: set_thr(m, r, 1)), "set-threshold"))
                 continue
             elif step == "remove-key":
-                k = rnd.choice(keys)
-                role = rnd.choice([None] + ROLES)
+                k = keys[par["key"] % len(keys)] if "key" in par else rnd.choice(keys)
+                role = par["role"] if "role" in par else rnd.choice([None] + ROLES)
                 cmd = ["root", "remove-key", path, k["keyid"]] + ([role] if role else [])
                 def expect(m, k=k, role=role):
                     m = json.loads(json.dumps(m))
@@ -471,11 +483,13 @@ def c20_program(args):
                         m["keys"].pop(k["keyid"], None)
                     return m
             elif step == "set-threshold":
-                r, t = rnd.choice(ROLES), rnd.choice([0, 1, 1, 2, 3])
+                r, t = rnd.choice(ROLES + ["root"] * 3), rnd.choice([0, 1, 1, 2, 2, 3])
+                if "role" in par:
+                    r, t = par["role"], par["t"]
                 cmd = ["root", "set-threshold", path, r, str(t)]
                 expect = (lambda m, r=r, t=t: set_thr(m, r, t)) if t > 0 else None
             elif step == "set-version":
-                v = rnd.choice([0, 1, 5, 2 ** 32, 2 ** 64 - 1, 2 ** 64])
+                v = par["v"] if "v" in par else rnd.choice([0, 1, 5, 5, 2 ** 32, 2 ** 64 - 1, 2 ** 64])
                 cmd = ["root", "set-version", path, str(v)]
                 expect = (lambda m, v=v: dict(m, version=v)) if 0 < v < 2 ** 64 else None
             elif step == "bump-version":
@@ -485,14 +499,14 @@ def c20_program(args):
                         return None
                     return dict(m, version=m["version"] + 1)
             elif step == "expire":
-                when = rnd.choice(["2031-02-03T04:05:06Z", "in 7 days", "not a date"])
+                when = par.get("when") or rnd.choice(["2031-02-03T04:05:06Z", "in 7 days", "not a date"])
                 cmd = ["root", "expire", path, when]
                 if when == "not a date":
                     expect = None
                 else:
                     expect = lambda m, when=when: dict(m, expires=(when if when.endswith("Z") else None))
             elif step in ("sign", "sign-missing-key"):
-                ks = rnd.sample(keys, rnd.randrange(1, len(keys) + 1))
+                ks = [keys[i % len(keys)] for i in par["keys"]] if "keys" in par else rnd.sample(keys, rnd.randrange(1, len(keys) + 1))
                 files = [os.path.join(keydir, k["file"]) for k in ks]
                 if step == "sign-missing-key":
                     files.append(os.path.join(keydir, "does-not-exist.pem"))
@@ -507,7 +521,7 @@ def c20_program(args):
             before = open(path, "rb").read() if os.path.exists(path) else None
             # ---- fault inside a seeded third of the commands
             fault = None
-            if rnd.random() < 0.34 and before is not None:
+            if rnd.random() < 0.34 and before is not None and not focus:
                 choices = ["rename-EIO", "rename-EACCES", "unlink-EIO", "open-root-EIO", "open-root-EACCES", "fsync-EIO", "rename-KILL", "write-KILL", "write-KILL"]
                 if mounted:
                     choices += ["disk-full"] * 4
@@ -674,6 +688,47 @@ def c20_program(args):
     return finish(res, base)
 
 
+C20_FOCUS_OPS = ["add-key-existing", "add-key-new", "remove-key", "remove-key-role", "set-threshold", "set-version", "bump-version", "expire"]
+
+
+def c20_focus(pi):
+    """Directed programs that come first in every batch (no faults): each content-changing subcommand
+    directly after a successful `sign` (twice, with a re-sign in between), and `sign` with fewer keys
+    than a root threshold of 2 or 3."""
+    n = len(C20_FOCUS_OPS)
+    if pi < n:
+        op = C20_FOCUS_OPS[pi]
+        one = {
+            "add-key-existing": {"op": "add-key", "key": 0, "roles": ["targets"]},
+            "add-key-new": {"op": "add-key", "key": 2, "roles": ["snapshot", "root"]},
+            "remove-key": {"op": "remove-key", "key": 1, "role": None},
+            "remove-key-role": {"op": "remove-key", "key": 1, "role": "timestamp"},
+            "set-threshold": {"op": "set-threshold", "role": "root", "t": 2},
+            "set-version": {"op": "set-version", "v": 5},
+            "bump-version": {"op": "bump-version"},
+            "expire": {"op": "expire", "when": "2031-02-03T04:05:06Z"},
+        }[op]
+        two = dict(one)
+        if op == "set-version":
+            two["v"] = 9
+        if op == "add-key-existing":
+            two["roles"] = ["snapshot"]
+        if op == "set-threshold":
+            two = {"op": "set-threshold", "role": "snapshot", "t": 2}
+        # key 2 is not part of the skeleton, so `add-key-new` really adds a key; re-sign with keys
+        # that are still root keys and meet the root threshold at that point
+        resign = {"op": "sign", "keys": [0, 1] if op == "set-threshold" else [0]}
+        return {"nkeys": 3, "skeleton_keys": 2, "steps": [one, resign, two, resign]}
+    pi -= n
+    if pi < 4:
+        nk = 2 + pi % 2
+        few = [0] if pi < 2 else list(range(nk - 1))
+        steps = [{"op": "set-threshold", "role": "root", "t": nk}, {"op": "sign", "keys": few}, {"op": "sign", "keys": list(range(nk))},
+                 {"op": "bump-version"}, {"op": "sign", "keys": few}, {"op": "sign", "keys": list(range(nk))}]
+        return {"nkeys": nk, "skeleton_keys": nk, "steps": steps}
+    return None
+
+
 def set_thr(m, r, t):
     m = json.loads(json.dumps(m))
     m["roles"][r]["threshold"] = t
@@ -702,7 +757,7 @@ def run_c20(tier, replay=None):
     with multiprocessing.Pool(THREADS) as pool:
         results = pool.map(c20_program, [(i, SEED, tier) for i in range(n)])
     return report("C20", tier, results, known, t0,
-                  rule="seeded command programs of 3..12 `tuftool root` subcommands (init, add-key, remove-key, set-threshold, set-version, bump-version, expire, sign) over 1..3 keys (RSA, ECDSA, Ed25519), including commands that must fail (missing key file, threshold 0, version 0 / 2^64, unparsable date, unmet threshold); inside a seeded third of the commands one fault: every rename/link call fails (EIO/EACCES), every unlink fails, fsync fails, opening root.json fails, the process is killed on entry to the publishing rename or to its k-th write, or the directory sits on a tmpfs that is full or nearly full (short writes, ENOSPC); non-trivial = distinct (command, fault, outcome) triples in which a fault was active; distinct = the same triples",
+                  rule="12 directed programs first (each content-changing subcommand right after a successful sign, twice with a re-sign in between; sign with fewer keys than a root threshold of 2 or 3), then seeded command programs: skeleton init / add-key per key / thresholds / sign (sometimes cut short) followed by 2..9 random `tuftool root` subcommands (init, add-key, remove-key, set-threshold, set-version, bump-version, expire, sign), content-changing ones preceded by a sign half of the time, over 1..4 keys (RSA, ECDSA, Ed25519), including commands that must fail (missing key file, threshold 0, version 0 / 2^64, unparsable date, unmet threshold); inside a seeded third of the commands one fault: every rename/link call fails (EIO/EACCES), every unlink fails, fsync fails, opening root.json fails, the process is killed on entry to the publishing rename or to its k-th write, or the directory sits on a tmpfs that is full or nearly full (short writes, ENOSPC); non-trivial = distinct (command, fault, outcome) triples in which a fault was active; distinct = the same triples",
                   level="exploration",
                   assumptions=["outcome-based oracle only (exit status vs file content), because tuftool runs a multi-thread runtime",
                                "signature validity is decided by the tough library (itself checked by C01) and, for all-Ed25519 root key sets, independently by aws-lc over the reference canonical form",
